@@ -27,6 +27,7 @@ def units(tier):
     u = [("eos", n) for n in ("vinet", "birch_murnaghan", "murnaghan")]
     u += [("qha", 1, True, None), ("qha", 2, True, None), ("qha", 1, False, None), ("qha", 1, True, 2), ("qha", 2, True, 3)]
     u += [("eosfit", o) for o in ("ascending", "descending", "shuffled")]
+    u += [("api", n) for n in ("vinet", "birch_murnaghan", "murnaghan")]
     if tier == "thorough":
         u += [("qha", e, p, t) for e in (1, 2) for p in (True, False) for t in (None, 2, 3) if ("qha", e, p, t) not in u]
     return u
@@ -545,8 +546,80 @@ def replay_alias(el_ndim, with_p):
     return d > 0, "QHA modified the caller's input arrays (max change %.3g): a second analysis with the same arrays would apply the PV term twice" % d
 
 
+def _eos_term(f):
+    """term of an equation-of-state callable on symbolic (v, E0, B0, B', V0), exp/fractional powers uninterpreted"""
+    import phonopy.qha.eos as eosmod
+
+    class NP:
+        @staticmethod
+        def exp(x):
+            return x.exp()
+    v, E0, B0, Bp, V0 = [z3.Real(n) for n in ("v", "E0", "B0", "Bp", "V0")]
+    old = eosmod.np
+    eosmod.np = NP
+    try:
+        return f(XE(v), XE(E0), XE(B0), XE(Bp), XE(V0)).t
+    finally:
+        eosmod.np = old
+
+
+def api_unit(u, res):
+    """PhonopyQHA(eos=name): EVERY fit made on behalf of the object (the static E(V) fit behind bulk_modulus / get_bulk_modulus_parameters
+    and the F(V;T) fits of the QHA run) hands scipy the equation of state that was named.  scipy.optimize.leastsq is a contract stub that
+    records the callable; its term on symbolic (v, E0, B0, B', V0) must equal the term of get_eos(name) (z3; exp and fractional powers
+    uninterpreted), and a mismatch is confirmed on concrete numbers."""
+    harness.setup()
+    import scipy.optimize as so
+    import phonopy.qha.eos as eosmod
+    from phonopy import PhonopyQHA
+    name = u[1]
+    rng = np.random.default_rng(3)
+    V = np.linspace(60.0, 72.0, 7)
+    T = np.array([0.0, 100.0, 200.0, 300.0, 400.0])
+    ee = 0.02 * (V - 65.0) ** 2 - 10.0
+    fe = -np.outer(T, np.ones(7)) * 0.01 * (1 + 0.01 * (V - 65)); cv = np.outer(T, np.ones(7)) * 0.05; en = np.outer(T, np.ones(7)) * 0.1
+    seen = []
+
+    def leastsq_stub(func, x0, args=(), full_output=0, **kw):
+        seen.append(args[0])
+        return (np.array(x0, dtype=float), None, {}, "", 1)
+    old = so.leastsq
+    so.leastsq = leastsq_stub
+    import io, contextlib, warnings
+    try:
+        with contextlib.redirect_stdout(io.StringIO()), warnings.catch_warnings():
+            warnings.simplefilter("ignore")
+            q = PhonopyQHA(volumes=V, electronic_energies=ee, temperatures=T, free_energy=fe, cv=cv, entropy=en, eos=name, t_max=200.0)
+            q.get_bulk_modulus_parameters(); q.bulk_modulus
+    finally:
+        so.leastsq = old
+    if len(seen) < 2:
+        raise HarnessError("PhonopyQHA made %d fits; expected the static fit and the QHA fits" % len(seen))
+    want = _eos_term(eosmod.get_eos(name))
+    for k, f in enumerate(seen):
+        got = _eos_term(f)
+        v, m = solve(res, "fit %d of PhonopyQHA(eos=%s) uses the named equation of state (term equality for all v, E0, B0, B', V0)" % (k, name), [got != want], timeout_ms=20000)
+        if v != "unsat":
+            pts = [(64.0, -10.0, 0.5, 4.2, 66.0), (70.0, -9.0, 0.7, 3.5, 65.0), (61.0, -11.0, 0.4, 5.0, 68.0)]
+            d = max(abs(float(f(*p)) - float(eosmod.get_eos(name)(*p))) for p in pts)
+            conf = d > 1e-9
+            what = "fit %d made by PhonopyQHA(eos='%s') %s uses another equation of state than the one named (values differ by %.3g at test points)" % (k, name, "(the static E(V) fit behind bulk_modulus)" if k == 0 else "", d)
+            (res.violations if conf else res.unconfirmed).append({"key": "%s:api:%s:fit%d" % (PID, name, min(k, 1)), "what": what, "replay": {"eos": name, "fit": k}})
+            if conf:
+                res.queries[-1]["verdict"] = "sat"
+            break
+    others = [n for n in ("vinet", "birch_murnaghan", "murnaghan") if n != name]
+    v2, _ = solve(Result("t"), "twin", [_eos_term(eosmod.get_eos(others[0])) != want], timeout_ms=20000)
+    d2 = abs(float(eosmod.get_eos(others[0])(64.0, -10.0, 0.5, 4.2, 66.0)) - float(eosmod.get_eos(name)(64.0, -10.0, 0.5, 4.2, 66.0)))
+    res.twins.append({"name": "api twin: another equation of state is distinguishable", "verdict": "sat" if (v2 != "unsat" and d2 > 1e-9) else "unsat"})
+    res.samples.append({"unit": res.unit, "fits_recorded": len(seen)})
+    return res
+
+
 def run_unit(u):
     res = Result("/".join(str(x) for x in u))
+    if u[0] == "api":
+        return api_unit(u, res)
     if u[0] == "eosfit":
         return eosfit_unit(u, res)
     return eos_unit(u, res) if u[0] == "eos" else qha_unit(u, res)
